@@ -1,5 +1,7 @@
 """Ground truth of a run, computed from the trace (what the world's hooks saw and which injected
 faults fired) with the unittest model - never from what the runner printed or recorded."""
+import re
+
 from . import common as C
 from . import world as W
 
@@ -72,7 +74,11 @@ class Truth:
         return n, f, e, s
 
     def event_names(self, kinds, pid=None):
-        """Names as the runner lists them: the test's str(), or the subtest's str()."""
+        """Names as the runner lists them: the test's str(), or the subtest's str() - on one
+        line (line breaks inside a name are blanks: the convention of the name lists)."""
+        return [re.sub(r'[\r\n]+', ' ', n.strip()) for n in self._event_names(kinds, pid)]
+
+    def _event_names(self, kinds, pid=None):
         out = []
         for o in self.occs:
             if pid is not None and o['pid'] != pid:
